@@ -54,6 +54,8 @@ Definition match_data_cast_int32 : bool := true.
 (* scanner.c block loop: `while (i < block->size) { if (i % N == R && scanner->timeout > 0) { if (elapsed OP timeout) ERROR_SCAN_TIMEOUT } ... block_data[i++] ...}` *)
 Definition block_check_modulus : Z := (4096)%Z.
 Definition block_check_residue : Z := (0)%Z.
+(* further conjuncts of the guard, over the offset i inside the current block *)
+Definition block_guard_extra (i : Z) : bool := true.
 Definition block_timeout_op : cmpop := CGt.
 Definition block_timeout_error : Z := ERROR_SCAN_TIMEOUT.
 Definition block_index_init : Z := (0)%Z.
